@@ -333,7 +333,7 @@ def ints(s):
 
 def san_summary(stderr):
     for l in stderr.splitlines():
-        if "runtime error" in l or "ERROR: AddressSanitizer" in l or "Assertion" in l:
+        if "runtime error" in l or "ERROR: AddressSanitizer" in l or "Assertion" in l or "WARNING: ThreadSanitizer" in l:
             return l.strip()[:400]
     return stderr.strip()[-300:]
 
@@ -349,6 +349,7 @@ def run_resilient(exe, lines, workdir, tag, max_restarts=25):
     env = dict(os.environ)
     env["UBSAN_OPTIONS"] = "print_stacktrace=1:halt_on_error=1"
     env["ASAN_OPTIONS"] = "detect_leaks=0"
+    env["TSAN_OPTIONS"] = "halt_on_error=1:exitcode=66:second_deadlock_stack=1"
     restarts = 0
     while start < len(lines):
         cf = os.path.join(workdir, "part-%s.txt" % tag)
